@@ -21,3 +21,24 @@ add("C07", "exploration",
     "Region map comes from the PYTRAPIC_VERIF hook; known finding F-D1 is reported once, hits counted.",
     "property-based testing (Hypothesis) with a region/transition invariant monitor on the reference machine",
     "DESIGN.md section 7")
+add("C02", "exploration",
+    "Metamorphic/differential: the IC10 emitted under drawn (thorough: all 256) option vectors is executed on the "
+    "reference machine and must produce the default vector's effect trace; a pragma arm requires textual identity "
+    "between '# pytrapic:' and API-given options.",
+    "Reference machine semantics are mine; rejected vectors are skipped; tail-call bit restricted by the F-D11 carve-out.",
+    "property-based metamorphic testing (Hypothesis): option vector vs default vector on the IC10 reference machine",
+    "DESIGN.md section 2")
+add("C04", "exploration",
+    "Dynamic provenance check: using the virtual register names exported by the guarded hook, every register read "
+    "executed on the reference machine must see the value last written for the same virtual register; generated "
+    "lifetime shapes incl. >16 live locals (must be rejected with the out-of-registers error) and captured device ids.",
+    "Needs the PYTRAPIC_VERIF hook; aliasing by design (same virtual name) is not judged here.",
+    "property-based testing (Hypothesis) with a provenance-tag invariant on the reference machine",
+    "DESIGN.md section 4")
+add("C06", "exploration",
+    "Shadow return stack on the reference machine: each executed 'j ra' must return behind the call being served "
+    "with the stack pointer balanced for the calling convention; argument order and results are checked against the "
+    "source interpreter; recursion must be rejected.",
+    "Callee arity from the source AST and emitted-function tags from the hook; carve-outs F-D11/F-D20/F-D25.",
+    "property-based testing (Hypothesis): call-graph generator + shadow-stack invariant + differential execution",
+    "DESIGN.md section 6")
